@@ -65,6 +65,7 @@ func NewLocalImporter(opts LocalImporterOptions) *LocalImporter {
 
 // Import a module by name.
 func (i *LocalImporter) Import(ctx context.Context, name string) (*object.Module, error) {
+	verifhook.Yield("reg.lock")
 	i.mutex.Lock()
 	defer i.mutex.Unlock()
 
